@@ -12,7 +12,9 @@ def sh(cmd, cwd=None, timeout=1200):
 
 def main():
     pid, var = sys.argv[1], sys.argv[2]
-    src = f"/tmp/seed/{pid}/{var}"
+    base = os.environ.get("SEED_DIR", "/tmp/seed")
+    tag = os.environ.get("SEED_TAG", "")
+    src = f"{base}/{pid}/{var}"
     wt = f"/tmp/cw_{pid}{var}"
     patch = f"{src}/patch.diff"
     demos = [f for f in os.listdir(src) if f.startswith("demo") and f.endswith(".py")]
@@ -48,7 +50,7 @@ def main():
     meta["source"] = "fresh sub-agent given only the property record and its own scratch worktree"
     print(json.dumps(meta, indent=1))
     if meta["confirmed"]:
-        dst = f"/verif/seeded/{pid}-{var}"
+        dst = f"/verif/seeded/{pid}-{tag}{var}"
         os.makedirs(dst, exist_ok=True)
         shutil.copy(patch, f"{dst}/patch.diff")
         shutil.copy(f"{src}/{demo}", f"{dst}/{demo}")
